@@ -87,6 +87,7 @@ type srvResult struct {
 	SdLate      []string        `json:"sd_late,omitempty"`    // events observed after Shutdown returned
 	SdListener  bool            `json:"sd_listener_closed,omitempty"`
 	SdRunning   int             `json:"sd_running,omitempty"` // handlers in progress when Shutdown returned
+	SdOpen      int             `json:"sd_open,omitempty"`     // accepted connections whose server end was still open 300 ms after Shutdown returned
 	Sd2Ran      bool            `json:"sd2_ran,omitempty"`     // a SECOND Shutdown call was made while the first was in progress
 	Sd2Running  int             `json:"sd2_running,omitempty"` // handlers in progress when that second call returned
 	Sd2Hang     bool            `json:"sd2_hang,omitempty"`
@@ -503,6 +504,16 @@ func srvRunScenario(sc srvScenario) (res srvResult) {
 			w.late.returned = true
 			w.late.mu.Unlock()
 			res.SdRunning = running
+			// (a goroutine of the connection may still be closing the socket at this very instant: allow it 300 ms)
+			for _, cc := range w.conns {
+				if ch, ok := cc.srvEnd.Load().(<-chan struct{}); ok {
+					select {
+					case <-ch:
+					case <-time.After(300 * time.Millisecond):
+						res.SdOpen++
+					}
+				}
+			}
 			res.SdMs = int(time.Since(t0) / time.Millisecond)
 			close(done)
 		}(sdDone)
